@@ -1,6 +1,7 @@
 package harness
 
 import (
+	"github.com/quickfixgo/quickfix/verifsim/simos"
 	"bytes"
 	"database/sql"
 	"errors"
@@ -247,18 +248,35 @@ func runC16(env *Env, tier string) {
 				env.Violate("C16/"+kind+"/error", "%s: %v", label, err)
 			}
 			m.T = n
-		case 2:
-			label = "IncrNextSenderMsgSeqNum"
-			if err := u.st.IncrNextSenderMsgSeqNum(); err != nil {
+		case 2, 3:
+			incr, name := u.st.IncrNextSenderMsgSeqNum, "IncrNextSenderMsgSeqNum"
+			if op == 3 {
+				incr, name = u.st.IncrNextTargetMsgSeqNum, "IncrNextTargetMsgSeqNum"
+			}
+			if kind == "file" && ch.Chance("incrdiskfault", 1, 6) {
+				// the disk refuses the write of the counter file (nothing is written): the operation reports the
+				// error and changes nothing - the store keeps answering the old number, now and after a refresh
+				simos.Current().ArmWriteFault(1, simos.Fault{Err: errors.New("injected: input/output error")})
+				label = name + " while the disk refuses the write"
+				err := incr()
+				if simos.Current().DisarmWriteFault() {
+					env.Fatalf("%s: the armed disk fault did not fire", label)
+				}
+				if err == nil {
+					env.Violate("C16/file/failure-swallowed", "%s reported success", label)
+				}
+				env.Stat("fault_disk_write_error_in_increment")
+				break
+			}
+			label = name
+			if err := incr(); err != nil {
 				env.Violate("C16/"+kind+"/error", "%s: %v", label, err)
 			}
-			m.S++
-		case 3:
-			label = "IncrNextTargetMsgSeqNum"
-			if err := u.st.IncrNextTargetMsgSeqNum(); err != nil {
-				env.Violate("C16/"+kind+"/error", "%s: %v", label, err)
+			if op == 2 {
+				m.S++
+			} else {
+				m.T++
 			}
-			m.T++
 		case 4, 5:
 			n := m.maxN + 1 + ch.Choose("skip", 3)*ch.Choose("skipon", 2)
 			b := c16Payload(env, n)
